@@ -22,7 +22,7 @@ var (
 		math.Inf(1), math.Inf(-1), 5e-324, math.MaxFloat64, 1e21, 1e22, 0.1, 100,
 		// exactly representable as float32 but not short in decimal
 		float64(float32(0.1)), float64(float32(1) / 3), math.MaxFloat32, float64(float32(16777217.5))}
-	StrDomain = []string{"", "a", "b", "ab", "A", "B", "aB", "abc", "ä", "\x00", "a b", "b%", "Ab", "c", "ba", "ıx", "ɐb", "aſ", "a\ufffdb", "a\xffb", "null", "\ufeffx", " ",
+	StrDomain = []string{"", "a", "b", "ab", "A", "B", "aB", "abc", "ä", "\x00", "a b", "b%", "Ab", "c", "ba", "ıx", "ɐb", "aſ", "a\ufffdb", "a\xffb", "a~b", "A^B", "x{y}|", "null", "\ufeffx", " ",
 		// strings of 8 bytes and more that differ at several of their first positions
 		"2021-01-15", "2020-12-24", "2021-10-05x", "abcdefgh", "abcdefgi", "bacdefgh", "abcdefg", "hgfedcba",
 		// longer than 64 bytes, equal on their first 64
